@@ -22,7 +22,7 @@ Lines (written by harness/eng_srv.go):
   CID r<j> recv cs= lam= actor= vv=                      → ok          (one applied remote change)
   CID r<j> snap lam= vv=                                 → ok          (applied snapshot)
   CIDQ r<j>                                              → lam= vv= cp= pend=
-  ATT|PP|DET c<k> r<j> cp=<ss>,<cs> chg=<cs>/<lam>/<kind>/<vv>|… vv=<vv> nogc=0|1 [po=1]
+  ATT|PP|DET c<k> r<j> cp=<ss>,<cs> chg=<cs>/<lam>/<kind>/<vv>|… vv=<vv> nogc=0|1 [po=1] [lost=1]
                                                          → R cp= changes=[actor:cs:ss;…] snap= vv= removed= req=ok
   SOP <ss> <op>                                          → ok|err      (operation of stored row ss, server fold)
   LOG | LOGF                                             → L …         (rows appended since the last LOG | all rows)
@@ -221,8 +221,14 @@ def request (st : St) (kind c r : String) (toks : List String) : St × List Stri
     else if kind == "PP" then Server.pushpullReq st.s cid docId pack (ProtoEngine.flag toks "po") nogc
     else Server.detach st.s cid docId pack
   let (snaps', snapVV) := finishRequest st.interval st.snaps st.s s' docId cid pack nogc res
+    (requestCpSeq st.s cid docId (kind == "ATT"))
+  -- `lost=1`: the server processed the request, the response never reached the client: nothing is
+  -- acknowledged, the replica keeps its checkpoint and its pending changes and will send them again
+  let lost := ProtoEngine.flag toks "lost"
   let rep' : Rep := match res with
-    | .ok resp => { rep with sync := rep.sync.ack resp.cp, ppend := rep.ppend.filter (fun p => p.1 > resp.cp.clientSeq) }
+    | .ok resp =>
+      if lost then rep
+      else { rep with sync := rep.sync.ack resp.cp, ppend := rep.ppend.filter (fun p => p.1 > resp.cp.clientSeq) }
     | .error _ => rep
   let st' := setRep { st with s := s', snaps := snaps' } r rep'
   -- `attachDocument`: `if res.Msg.DisablePresence && !opts.DisablePresence { ResetPresences() }`
